@@ -21,10 +21,23 @@ Follows, side by side:
   method by `self._transport.<key>`, `response = ` only when not void, `await` only when not
   server-streaming).
 
-Not modelled (hypotheses of the check, see harness/props/c03.py): LRO / paged / extended-operation
-wrapping of the response (C07, C08), flattened keyword arguments (C05), metadata (C06), retry (C09),
-selective generation (`is_internal`, C16), mixin stubs (C17: only their NAMES appear here, as later
-members of the transport class), non-ASCII RPC names (`str.lower` is modelled on ASCII).
+What of the anchor files is NOT represented here (each is a hypothesis of harness/props/c03.py or
+belongs to another property):
+* _client_macros.j2 / async_client.py.j2: the flattened-parameter block (`has_flattened_params`, the
+  per-field assignments; C05), `create_metadata` / api-version header / auto-populated uuid4 fields
+  (C06, C18), the deprecation warning, LRO / pager / extended-operation wrapping of the response and
+  the `_unary` twin (C07, C08), `_validate_universe_domain`; positional vs keyword `request` and the
+  caller's `metadata` passing through are checked by T3 directly (no logic to model);
+* base.py.j2: credentials/scopes/host handling of `__init__`, retry/timeout defaults of
+  `_prep_wrapped_messages` (C09), mixin entries of the wrapped table (C17: only their NAMES appear,
+  as members defined after the stubs);
+* grpc.py.j2 / grpc_asyncio.py.j2: `create_channel`, mTLS / SSL branches of `__init__`, the logging
+  interceptor, `operations_client`, the legacy IAM stubs (`opts.add_iam_methods`);
+* wrappers.py: `Method._client_output` for LRO / extended LRO / paged methods, `is_internal`
+  (`make_private`, C16), `Method.client_method_name` for internal methods;
+* metadata.py: `module_alias` (given as a parameter, computed by C12), `convert_to_versioned_package`
+  (only the proto-plus/pb2 DECISION of `python_import` is modelled, not the import path);
+* non-ASCII RPC names (`str.lower` is modelled on ASCII); gRPC itself.
 -/
 namespace GapicModel.Model.Grpc
 open GapicModel.Regex
